@@ -119,7 +119,7 @@ def global_axis_st(draw, nonzero, nmax=4):
     n = min(nmax, draw(st.sampled_from([1, 2, 2, 3, 3, 4, 4])))
     fam = draw(st.sampled_from(AXIS_FAMILIES))
     if fam == "wavelength":
-        el = st.floats(200.0, 1000.0)
+        el = st.one_of(st.floats(200.0, 1000.0), st.integers(200, 1000).map(float))
     elif fam == "pixel":
         el = st.integers(1 if nonzero else 0, 12).map(float)
     elif fam == "signed":
